@@ -24,7 +24,8 @@ var client = &http.Client{
 func looksLikeJUnitXMLTestResults(b []byte) bool {
 	// Tolerate a byte-order mark and whitespace before the document, as XML parsers do.
 	b = bytes.TrimLeft(bytes.TrimPrefix(b, []byte("\xef\xbb\xbf")), " \t\r\n")
-	return bytes.HasPrefix(b, []byte{'<', '?', 'x', 'm', 'l'}) || bytes.HasPrefix(b, []byte{'<', 't', 'e', 's', 't'})
+	// It may also start with a comment or processing instruction; go test output never starts with <
+	return bytes.HasPrefix(b, []byte{'<'})
 }
 
 func parseJUnitXMLTestResults(data []byte) (core.TestSuites, error) {
